@@ -242,10 +242,11 @@ def diteration (g : Graph α) (a : α) (seeds : List α) (nIter : Nat) (tol : α
 
 /-! ### push kernel (`linalg/push.pyx : push_pagerank`), as written -/
 
-/-- stable insertion of `v` before the first element with a strictly smaller key (descending order) -/
+/-- insertion of `v` (an index smaller than all those of the list) into a list sorted by descending key:
+    `v` goes before the first element whose key is not strictly larger, so equal keys stay in index order -/
 def insertDesc (key : Nat → α) (v : Nat) : List Nat → List Nat
   | [] => [v]
-  | w :: ws => if key w < key v then v :: w :: ws else w :: insertDesc key v ws
+  | w :: ws => if key v < key w then w :: insertDesc key v ws else v :: w :: ws
 
 /-- `np.argsort(-residuals)` (stable: numpy's sort of a short array is an insertion sort) -/
 def argsortDesc (r : List α) : List Nat :=
